@@ -41,7 +41,7 @@ prop("C17", ["contracts.c10_network", "contracts.c11_nmt", "contracts.c17_period
       "HeartbeatOnWrite", "HeartbeatStateChange", "NodeGuarding", "TaskUpdate", "PdoStartSetUpdate", "Disconnect", "PeriodicInit", "SlaveSendCommand"],
      assumed=["python-can cyclic task model (env/stubs.py TaskStub): a task transmits the payload snapshot taken at creation "
               "(or at modify_data) with its period until stop(); `live` = started - stopped is ghost state derived from the event trace",
-              "Network.disconnect is proved for 2 nodes x 2 maps in all 16 running/idle configurations (enumerated, not for arbitrary counts)"],
+              "Network.disconnect is proved for 2 nodes x 2 maps in all 16 running/idle configurations (quick) plus 3x3, 1x4 and 4x1 in selected / all configurations (thorough): enumerated, not for arbitrary counts"],
      not_decided=["real-time behaviour of the transmitting thread"])
 
 prop("C19", ["contracts.c19_p402"],
@@ -91,7 +91,7 @@ prop("C15", ["contracts.c04_codec", "contracts.c05_pdovar", "contracts.c10_netwo
 prop("C09", ["contracts.c09_pdocfg", "contracts.c15_pdo"], ["PdoSave", "PdoSaveRead", "PdoReadFromOd", "PdoSubscribe", "PdoMapsInit"],
      assumed=["strict CiA 301 device behind the PDO's communication record and mapping array (env/pdodev.py): stores accepted "
               "writes, refuses out-of-order ones; every record[sub].raw access is one SDO transfer",
-              "mappings of 0, 1, 2 and 8 entries (enumerated count; every entry's index / sub-index / length universally quantified)",
+              "mappings of 0, 1, 2 and 8 entries in the quick tier, every count 0..8 in the thorough tier (enumerated count; every entry's index / sub-index / length universally quantified)",
               "the configuration only sets optional parameters whose sub-entries exist in the dictionary"],
      not_decided=["PDO numbers 1..512 / PdoMaps construction; configuration taken from the dictionary (from_od=True); "
                   "devices with a fixed-length mapping array (the _fill_map work-around)"])
@@ -100,7 +100,7 @@ prop("C12", ["contracts.c01_client", "contracts.c12_blockdown"], ["BdInit", "BdS
      bounded=[("bounded.blocktransfer", "block_download")],
      assumed=["SdoClient request_response / read_response / send_request / abort as seen by the stream (env/blockclient.py)",
               "binascii.crc_hqx is a byte-wise fold (uninterpreted step function); the CRC-16 polynomial is CPython's",
-              "_retransmit is contracted for sub-blocks of 3 and 5 full segments with every acknowledged count (enumerated)"],
+              "_retransmit per function is contracted for sub-blocks of 3 and 5 full segments (quick; 1, 2, 4, 5, 7, 12 segments with every acknowledged count in the thorough tier); for ALL sub-block sizes and acknowledged counts it is covered by BlockDownloadLossTheorem's invariant"],
      not_decided=["end to end (BlockDownloadTheorem, BlockDownloadLossTheorem against the conformant server model env/blockserver.py): "
                   "undisturbed and single-loss transfers are proved; 'a download that returns normally under any other loss pattern has "
                   "committed exactly the payload' is only covered per function and by the bounded stand-in against a reference server",
